@@ -31,6 +31,7 @@ EXPLANATION = (
     "damage calculators agree statement by statement. Not decided: insensitivity to non-reversal samples, monotonicity, "
     "ordering of the 10/50/90 % lifetimes.")
 EXPLANATION += (" R-C10-4: per-point knee values spread over the hysteresis table follow the table's index layout (hysteresis_index outermost, assessment_point_index fastest), by a shape algebra over ones/array/tile/repeat/flatten. R-C10-5: the lifetime branches switch at the end of the table the failure position refers to (shared with R-C09-6) - needed for monotonicity in the load level.")
+EXPLANATION += (' R-C10-6: in the damage modules the per-point assessment and component-curve parameters are neither reduced over the batch (np.min/np.max/.min()/...) nor re-ordered by their index labels (sort_index/sort_values/reindex).')
 ASSUMPTIONS = [
     "pandas groupby(level).reduction() reduces within each group only; element-wise numpy/pandas operations keep rows apart",
 ]
@@ -245,6 +246,65 @@ def run(ctx):
     ctx.attempt(_r3)
     ctx.attempt(_r4)
     ctx.attempt(_r5)
+    ctx.attempt(_r6)
+
+
+def _r6(ctx):
+    """Per-point parameters.  With a per-point stress gradient the derived assessment parameters and the component curve
+    parameters are one value per assessment point, in assessment-point order.  In the damage modules they must neither be
+    reduced over the batch (np.min/np.max/... of a parameter gives every point another point's limit) nor re-ordered by their
+    index labels (sort_index / sort_values: the labels of the user's G series are irrelevant, positions pair them with the
+    points)."""
+    prog = ctx.prog
+    ctx.rule("R-C10-6", floor=3, what="per-point parameters are neither reduced over the batch nor re-ordered by label")
+    mods = ("pylife.strength.damage_parameter", "pylife.strength.fkm_nonlinear.damage_calculator",
+            "pylife.strength.fkm_nonlinear.damage_calculator_praj_miner")
+    n = 0
+
+    def per_point(e, loc):
+        while isinstance(e, ast.Call) and isinstance(e.func, ast.Attribute) and e.func.attr in ("to_numpy", "copy", "astype", "abs"):
+            e = e.func.value
+        if isinstance(e, ast.Attribute) and e.attr == "values":
+            e = e.value
+        if isinstance(e, ast.Name):
+            return loc.get(e.id, False)
+        if isinstance(e, ast.Attribute) and isinstance(e.value, ast.Attribute) and is_self_attr(e.value) and \
+                (e.value.attr == "_assessment_parameters" or e.value.attr.startswith("_component_woehler_curve")):
+            return True
+        return False
+    for key, fi in sorted(prog.functions.items()):
+        if fi.module.name not in mods:
+            continue
+        loc = {}
+        for st in walk_function(fi.node):
+            if isinstance(st, ast.Assign) and isinstance(st.targets[0], ast.Name) and per_point(st.value, loc):
+                loc[st.targets[0].id] = True
+        for c in calls_in(fi.node):
+            fn = call_name(c) or ""
+            st = c
+            while not isinstance(st, ast.stmt):
+                st = st._parent
+            target = None
+            what = None
+            if fn in NP_REDUCERS and len(c.args) == 1 and not any(k.arg == "axis" for k in c.keywords):
+                target, what = c.args[0], "reduced over the batch (%s)" % fn
+            elif isinstance(c.func, ast.Attribute) and c.func.attr in ("min", "max", "sum", "mean", "median") and not c.args and \
+                    not fn.startswith("np."):
+                target, what = c.func.value, "reduced over the batch (.%s())" % c.func.attr
+            elif isinstance(c.func, ast.Attribute) and c.func.attr in ("sort_index", "sort_values", "reindex"):
+                target, what = c.func.value, "re-ordered by label (.%s())" % c.func.attr
+            if target is None or not per_point(target, loc):
+                continue
+            # the documented reduction to the weakest point for the 'minimum lifetime' curve is the one named exception
+            if fi.name.startswith("get_woehler_curve_minimum_lifetime"):
+                continue
+            n += 1
+            ctx.violated(fi, st, "%s: the per-point parameter %s is %s: with a per-point stress gradient every assessment point "
+                         "then works with another point's value, so its result depends on which points share the call" %
+                         (fi.name, norm_text(target), what), text=norm_text(c)[:80])
+        uses = [x for x in ast.walk(fi.node) if isinstance(x, ast.Attribute) and per_point(x, {})]
+        if uses and not any(f_.construct == fi.key and f_.rule == "R-C10-6" for f_ in ctx.findings):
+            ctx.holds(fi, fi.node, "%s: %d reads of per-point parameters, none reduced or re-ordered" % (fi.name, len(uses)))
 
 
 def _r5(ctx):
@@ -573,6 +633,24 @@ LD = "src/pylife/strength/fkm_load_distribution.py"
 
 def variants():
     out = []
+
+    def min_over_points(tree):
+        f = find_func(tree, "DamageCalculatorPRAJ._initialize_binning")
+        for st in f.body:
+            if isinstance(st, ast.Assign) and isinstance(st.value, ast.Attribute) and st.value.attr == "P_RAJ_D_e":
+                st.value = parse_expr("np.min(self._assessment_parameters.P_RAJ_D_e)")
+                return True
+        return False
+    out.append(witness("lower class limit = minimum over all points", DC, min_over_points, "R-C10-6"))
+
+    def sort_limits(tree):
+        f = find_func(tree, "DamageCalculatorPRAM.is_life_infinite")
+        for i, st in enumerate(f.body):
+            if isinstance(st, ast.If) and "reset_index" in ast.unparse(st):
+                st.body = [parse_stmt("fatigue_strength_limit = fatigue_strength_limit.sort_index().reset_index(drop=True)")]
+                return True
+        return False
+    out.append(witness("endurance limits sorted by the labels of the G series", DC, sort_limits, "R-C10-6"))
 
     def z_repeat(tree):
         f = find_func(tree, "DamageCalculatorPRAM._initialize_P_RAM_Z_index")
